@@ -234,8 +234,8 @@ func runC15(c *Ctx) {
 				continue
 			}
 			if i+1 < len(he.Body.List) {
-				if is, ok := he.Body.List[i+1].(*ast.IfStmt); ok && types.ExprString(is.Cond) == "err != nil" {
-					if ret, ok := is.Body.List[len(is.Body.List)-1].(*ast.ReturnStmt); ok && len(ret.Results) == 2 && exprMentions(ret.Results[1], "err") && types.ExprString(ret.Results[1]) != "nil" {
+				if is, ok := he.Body.List[i+1].(*ast.IfStmt); ok && errVarOfCond(is.Cond) != "" {
+					if ret, ok := is.Body.List[len(is.Body.List)-1].(*ast.ReturnStmt); ok && len(ret.Results) == 2 && exprMentions(ret.Results[1], errVarOfCond(is.Cond)) && types.ExprString(ret.Results[1]) != "nil" {
 						good = true
 					}
 				}
@@ -281,8 +281,8 @@ func runC15(c *Ctx) {
 					continue
 				}
 				if i+1 < len(worker.Body.List) {
-					if is, ok := worker.Body.List[i+1].(*ast.IfStmt); ok && types.ExprString(is.Cond) == "err != nil" && len(is.Body.List) >= 1 {
-						if ss, ok := is.Body.List[0].(*ast.SendStmt); ok && types.ExprString(ss.Value) == "err" {
+					if is, ok := worker.Body.List[i+1].(*ast.IfStmt); ok && errVarOfCond(is.Cond) != "" && len(is.Body.List) >= 1 {
+						if ss, ok := is.Body.List[0].(*ast.SendStmt); ok && types.ExprString(ss.Value) == errVarOfCond(is.Cond) {
 							forwards = true
 							if id, ok := ss.Chan.(*ast.Ident); ok {
 								errChan = info.ObjectOf(id)
@@ -664,16 +664,16 @@ func checkErrFlow(c *Ctx, info *types.Info, fd *ast.FuncDecl, st ast.Stmt, list 
 	good := false
 	if init != nil {
 		is := st.(*ast.IfStmt)
-		if strings.Contains(types.ExprString(is.Cond), "err != nil") {
-			if ret, ok := is.Body.List[len(is.Body.List)-1].(*ast.ReturnStmt); ok && len(ret.Results) > 0 && exprMentions(ret.Results[len(ret.Results)-1], "err") {
+		if errVarOfCond(is.Cond) != "" {
+			if ret, ok := is.Body.List[len(is.Body.List)-1].(*ast.ReturnStmt); ok && len(ret.Results) > 0 && exprMentions(ret.Results[len(ret.Results)-1], errVarOfCond(is.Cond)) {
 				good = true
 			}
 		}
 	} else {
 		for i, s := range list {
 			if s == st && i+1 < len(list) {
-				if is, ok := list[i+1].(*ast.IfStmt); ok && types.ExprString(is.Cond) == "err != nil" {
-					if ret, ok := is.Body.List[len(is.Body.List)-1].(*ast.ReturnStmt); ok && len(ret.Results) > 0 && exprMentions(ret.Results[len(ret.Results)-1], "err") {
+				if is, ok := list[i+1].(*ast.IfStmt); ok && errVarOfCond(is.Cond) != "" {
+					if ret, ok := is.Body.List[len(is.Body.List)-1].(*ast.ReturnStmt); ok && len(ret.Results) > 0 && exprMentions(ret.Results[len(ret.Results)-1], errVarOfCond(is.Cond)) {
 						good = true
 					}
 				}
@@ -748,4 +748,16 @@ func determinismEffects(c *Ctx, rule string) {
 	c.check(len(hits) == 0, rule, pkgGenerator+"|no-time-rand-env-reachable", "", fmt.Sprintf("%d functions reachable from Generate/Parse in the module; none is time.Now, math/rand or os.Getenv", nreach),
 		fmt.Sprintf("reachable from generator.Generate / parser.Parse: %v — generated output would depend on time, randomness or the environment", hits))
 	_ = all
+}
+
+// errVarOfCond: for a condition `<x> != nil` returns the name of x, else "".
+func errVarOfCond(e ast.Expr) string {
+	be, ok := ast.Unparen(e).(*ast.BinaryExpr)
+	if !ok || be.Op != token.NEQ || types.ExprString(be.Y) != "nil" {
+		return ""
+	}
+	if id, ok := be.X.(*ast.Ident); ok {
+		return id.Name
+	}
+	return ""
 }
